@@ -1212,6 +1212,9 @@ func provablyNonNil(v ssa.Value, depth int) bool {
 		return true
 	case *ssa.Call:
 		f := x.Call.StaticCallee()
+		if f != nil && f.Pkg != nil && ((f.Pkg.Pkg.Path() == "fmt" && f.Name() == "Errorf") || (f.Pkg.Pkg.Path() == "errors" && f.Name() == "New")) {
+			return true // documented: never nil
+		}
 		if f == nil || f.Blocks == nil || depth <= 0 || f.Signature.Results().Len() != 1 {
 			return false
 		}
@@ -1220,7 +1223,43 @@ func provablyNonNil(v ssa.Value, depth int) bool {
 		for _, b := range f.Blocks {
 			if r, isR := b.Instrs[len(b.Instrs)-1].(*ssa.Return); isR {
 				n++
-				if !provablyNonNil(r.Results[0], depth-1) {
+				if provablyNonNil(r.Results[0], depth-1) {
+					continue
+				}
+				// a return that is only taken when a parameter is nil, while this call passes a
+				// non-nil argument for it (`if err == nil { return nil }` in a wrapping constructor)
+				infeasible := false
+				for _, cb := range f.Blocks {
+					iff, isIf := condOf(cb)
+					if !isIf {
+						continue
+					}
+					op, cx, cy, isCmp := cmpOf(iff.Cond)
+					if !isCmp || (op != token.EQL && op != token.NEQ) {
+						continue
+					}
+					if isNilConst(cx) {
+						cx, cy = cy, cx
+					}
+					par, isPar := stripConv(cx).(*ssa.Parameter)
+					if !isNilConst(cy) || !isPar {
+						continue
+					}
+					pi := -1
+					for i, fp := range f.Params {
+						if fp == par {
+							pi = i
+						}
+					}
+					if pi < 0 || pi >= len(x.Call.Args) || !provablyNonNil(x.Call.Args[pi], depth-1) {
+						continue
+					}
+					nilIdx := b2i(op == token.NEQ) // successor taken when the parameter IS nil
+					if edgeDominatesClassic(cb, nilIdx, b) {
+						infeasible = true
+					}
+				}
+				if !infeasible {
 					ok = false
 				}
 			}
